@@ -176,3 +176,31 @@ Proof.
   - replace (length l - Z.to_nat k)%nat with 0%nat by (unfold zlen in *; lia). reflexivity.
   - cbn [Z.to_nat skipn]. f_equal. unfold zlen in *. lia.
 Qed.
+
+Lemma foldM_app {A B} (f : A -> B -> res A) l1 l2 a :
+  foldM f (l1 ++ l2) a = (a' <- foldM f l1 a ;; foldM f l2 a').
+Proof.
+  revert a. induction l1 as [|x l1 IH]; intros a; cbn [app foldM]; [reflexivity|].
+  destruct (f a x) as [a'|e]; cbn [bind]; [apply IH|reflexivity].
+Qed.
+
+Lemma divceil_pos_val n d : 0 <= n -> 0 < d ->
+  n / d + Z.b2z (z_true (n mod d)) = (n + d - 1) / d.
+Proof.
+  intros Hn Hd.
+  pose proof (Z.div_mod n d ltac:(lia)) as E. pose proof (Z.mod_pos_bound n d Hd) as B.
+  unfold z_true. destruct (n mod d =? 0) eqn:E0; cbn [negb Z.b2z].
+  - apply Z.eqb_eq in E0. apply Z.div_unique with (r := d - 1); lia.
+  - apply Z.eqb_neq in E0. apply Z.div_unique with (r := n mod d - 1); lia.
+Qed.
+
+Lemma firstn_add {A} a b (x : list A) : firstn (a + b) x = firstn a x ++ firstn b (skipn a x).
+Proof.
+  rewrite <- (firstn_skipn a x) at 1. rewrite firstn_app.
+  destruct (le_lt_dec a (length x)) as [L|L].
+  - rewrite firstn_length. replace (Nat.min a (length x)) with a by lia.
+    rewrite (firstn_all2 (n := (a + b)%nat) (firstn a x)) by (rewrite firstn_length; lia).
+    f_equal. f_equal. lia.
+  - rewrite (skipn_all2 x) by lia. rewrite !firstn_nil, !app_nil_r.
+    apply firstn_all2. rewrite firstn_length. lia.
+Qed.
